@@ -6,13 +6,13 @@ import vlib
 from vlib import ji, js, jo, ja
 
 ID = "C12"
-THEOREMS = ['C12_const_sound', 'C12_const_expr_no_type_effect', 'C12_assign_constant_sound', 'C12_del_local_refuted', 'C12_path_assign_refuted', 'C12_closure_assign_refuted', 'C12_div_effect_refuted', 'C12_maybe_rhs_var_refuted', 'C12_err_partial_refuted', 'C12_nonvacuous']
+THEOREMS = ['C12_const_sound', 'C12_const_expr_no_type_effect', 'C12_assign_constant_sound', 'C12_del_local_refuted', 'C12_path_assign_refuted', 'C12_closure_assign_refuted', 'C12_div_effect_refuted', 'C12_maybe_rhs_var_refuted', 'C12_err_partial_refuted', 'C12_nonvacuous', 'C12_straightline_consts_partial', 'C12_statement_consts_partial']
 MANIFEST = {
     "level": "proof",
     "technique": "Coq proof on a hand model of Expression::resolve_constant / type_info (Model/TypeInfo.v) against the "
                  "Core-VRL evaluator + differential correspondence on compiled programs (final_type_info, runs)",
-    "text": "",
-    "note": "",
+    "text": "Closed Coq theorems: (1) C12_const_sound - for EVERY expression, type state, run-time state, stdlib semantics and operator semantics: if resolve_constant returns c and the run-time variables hold the constants the type state records for them (consts_ok), evaluation returns exactly c and changes nothing; such an expression's type_info has no effect on the type state; (2) assigning a constant expression to a variable records c, stores c and keeps consts_ok; (3) consts_ok is preserved by every statement of the straight-line fragment (effect-free expressions, assignments to variables, event/metadata paths, and paths below variables with a non-constant right-hand side) and holds at the end of every such program on every conforming input. The model is a Gallina transcription of every Expression::type_info / resolve_constant impl of the Core-VRL constructs (Model/TypeInfo.v over the Kind model of C19) tied to the code by running each generated program through the compiler and runtime (harness `typed`: final_type_info kinds, fallibility, returns, run outcome, final event/metadata, Rust-side membership) and through type_info/eval in Coq. The invariant is FALSE in general on the unchanged tree - six ways the compiler's constant goes stale are refuted by vm_compute witnesses that also fail on the implementation: del(x.a) on a variable path (`x = {\"a\": 2}; del(x.a); 10 / x.a`), path assignment recording the rhs constant for the whole variable (`x = {}; x.b = 5; 10 / x`), assignments inside closures, Div dropping the rhs type effects, `||`/`??` merging rhs-only variables, `??`/`ok, err =` with a partially executed lhs.",
+    "note": "Partial: invariant preservation is proved on the straight-line fragment only; if/else, short-circuit merges (Details::merge), closures and del are covered by correspondence + oracle search (a targeted generator assigns a constant, mutates the variable through each channel and takes a decision based on the constant) and are refuted where the code is wrong. Trusted: Coq kernel + vm_compute, the hand-written models tied by correspondence, the printer/AST codec, harness typed.rs, Python generator. No axioms.",
     "design_ref": "DESIGN.md section 5 C12",
 }
 
